@@ -183,6 +183,7 @@ func (m *Module) startCtrlFn(name string, fn func() error) chan error {
 			// Reset the flag before handing over the result, so that the reset
 			// cannot hit the flag of a control function that is started next.
 			m.ctrlFuncRunning.UnSet()
+			verifPoint("modules.ctrlfn.returned", m.Name)
 			ctrlFnError <- err
 			m.checkIfStopComplete()
 		}()
